@@ -961,9 +961,79 @@ impl<K: KeyT, V: ValT> MapWorld<K, V> {
         Ok(())
     }
 
+    /// `HashMap::from([(K, V); N])`: exists only for the default hasher, which is randomly seeded: the callbacks of
+    /// this section are not counted (their number depends on the seed), the result does not depend on it: same
+    /// contents as inserting the pairs in order (first key instance kept, last value wins), every other
+    /// instance dropped exactly once, and everything dropped with the map.
+    fn op_from_array(&mut self, op: &Op, pairs: &[(u32, u32)]) -> VResult {
+        type DMap<K, V> = hashbrown::HashMap<K, V, hashbrown::DefaultHashBuilder, crate::alloc::SimAlloc>;
+        fn build<K: KeyT, V: ValT, const N: usize>(items: Vec<(K, V)>) -> DMap<K, V> {
+            let arr: [(K, V); N] = match items.try_into() {
+                Ok(a) => a,
+                Err(_) => unreachable!(),
+            };
+            DMap::from(arr)
+        }
+        let items: Vec<(K, V)> = pairs.iter().map(|&(i, v)| (K::make(i), V::make(v))).collect();
+        let toks: Vec<(u32, u32, u32, u32)> = items.iter().map(|(k, v)| (k.id(), k.serial(), v.val(), v.serial())).collect();
+        sim().probe(Probe::FromArray);
+        sim().quiet = true;
+        let r = std::panic::catch_unwind(std::panic::AssertUnwindSafe(|| {
+            let m: DMap<K, V> = match items.len() {
+                0 => build::<K, V, 0>(items),
+                1 => build::<K, V, 1>(items),
+                2 => build::<K, V, 2>(items),
+                3 => build::<K, V, 3>(items),
+                4 => build::<K, V, 4>(items),
+                5 => build::<K, V, 5>(items),
+                _ => build::<K, V, 8>(items),
+            };
+            let got: Vec<ME> = m.iter().map(|(k, v)| ME { kid: k.id(), ks: k.serial(), v: v.val(), vs: v.serial() }).collect();
+            let len = m.len();
+            let ok = m.iter().all(|(k, v)| k.intact() && v.intact());
+            drop(m);
+            (got, len, ok)
+        }));
+        sim().quiet = false;
+        let _ = op;
+        let (mut got, len, ok) = match r {
+            Ok(x) => x,
+            Err(_) => vio!(self, "panic/FromIter", "HashMap::from(array of {} pairs) panicked", toks.len()),
+        };
+        if !ok {
+            vio!(self, "ledger/invalid-ref", "HashMap::from(array) holds an element that is not live");
+        }
+        let mut want: Vec<ME> = Vec::new();
+        for t in &toks {
+            match want.iter_mut().find(|e| e.kid == t.0) {
+                Some(e) => {
+                    e.v = t.2;
+                    e.vs = t.3;
+                }
+                None => want.push(ME { kid: t.0, ks: t.1, v: t.2, vs: t.3 }),
+            }
+        }
+        got.sort();
+        want.sort();
+        if got != want || len != want.len() {
+            vio!(self, "ret/FromIter", "HashMap::from(array of {} pairs) holds {} entries (len() {len}), inserting the pairs in order gives {}: {:?} vs {:?}", toks.len(), got.len(), want.len(), got, want);
+        }
+        let s = sim();
+        for t in &toks {
+            if (K::HAS_SERIAL && s.serial_state[t.1 as usize] != 2) || (V::HAS_SERIAL && s.serial_state[t.3 as usize] != 2) {
+                drop(s);
+                vio!(self, "ledger/leak", "after HashMap::from(array) and dropping the map the instance for key {} (serials {} / {}) was not dropped exactly once", t.0, t.1, t.3);
+            }
+        }
+        Ok(())
+    }
+
     fn op_extend(&mut self, si: usize, op: &Op) -> VResult {
         // v = [id, val, id, val, ...]; a = claimed lower size hint (-1 = honest); c = 1: iterator panics after b items
         let pairs: Vec<(u32, u32)> = op.v.chunks(2).filter(|c| c.len() == 2).map(|c| (c[0] as u32 % K::UNIVERSE, Self::nv(c[1] as u32))).collect();
+        if op.k == Kd::FromIter && op.b == 1 && op.f.is_none() && self.ctx.functional() && self.ctx.cfg.eq_mode == crate::state::EqMode::Lawful && matches!(pairs.len(), 0..=5 | 8) {
+            return self.op_from_array(op, &pairs);
+        }
         let items: Vec<(K, V)> = pairs.iter().map(|&(i, v)| (K::make(i), V::make(v))).collect();
         let toks: Vec<(u32, u32, u32, u32)> = items.iter().map(|(k, v)| (k.id(), k.serial(), v.val(), v.serial())).collect();
         let mut fc = self.fctx(si, op);
